@@ -34,7 +34,7 @@ fn s_variant_pool() -> SBoxedStrategy<String> {
     .sboxed()
 }
 
-fn ext_string(a: &Ast, leading_dash: bool) -> Option<String> {
+pub fn ext_string(a: &Ast, leading_dash: bool) -> Option<String> {
     let toks = a.tokens();
     let mut id = vec![];
     a.id.tokens(&mut id);
